@@ -19,8 +19,9 @@ import (
 // C14 — the calculation-process text explains the result and observing it is harmless.
 
 type c14Term struct {
-	Src  string
-	Kind string // int | common | fate | coc | wod | dc | nested | chain | var | computed
+	Src   string
+	Label string `json:",omitempty"` // what the annotation starts with when it is not the source (faceless dice: "2d" is shown as "2D3")
+	Kind  string // int | common | fate | coc | wod | dc | nested | chain | var | computed
 	X, Y, Mode, N int
 	Min, Max      *int `json:",omitempty"`
 	Bonus         bool `json:",omitempty"`
@@ -46,9 +47,12 @@ var c14Terms = []c14Term{
 	{Src: "(2d2)d2", Kind: "nested", X: 2, Y: 2, Z: 2}, {Src: "1d2d2", Kind: "chain", X: 1, Y: 2, Z: 2},
 	{Src: "(1d2+1d2)d2", Kind: "nested2", X: 2, Y: 2, Z: 2}, {Src: "2d(1d2+1d2)", Kind: "nested2s", X: 2, Y: 2, Z: 2},
 	{Src: "x", Kind: "var", Val: 4}, {Src: "力量", Kind: "var", Val: 7}, {Src: "cc", Kind: "computed", X: 2, Y: 2},
+	// faceless dice: the number of sides comes from DefaultDiceSideExpr ("3" in this check) and the annotation names it
+	{Src: "2d", Label: "2D3", Kind: "common", X: 2, Y: 3}, {Src: "3dk2", Label: "3D3kh2", Kind: "common", X: 3, Y: 3, Mode: 2, N: 2}, {Src: "2dq1", Label: "2D3kl1", Kind: "common", X: 2, Y: 3, Mode: 1, N: 1},
+	{Src: "2ddl1", Label: "2D3dl1", Kind: "common", X: 2, Y: 3, Mode: 3, N: 1}, {Src: "2ddh1", Label: "2D3dh1", Kind: "common", X: 2, Y: 3, Mode: 4, N: 1}, {Src: "2dmin2", Label: "2D3min2", Kind: "common", X: 2, Y: 3, Min: ip(2)}, {Src: "2dmax2", Label: "2D3max2", Kind: "common", X: 2, Y: 3, Max: ip(2)},
 }
 
-var c14Reduced = []int{0, 2, 4, 10, 11, 13, 16, 18, 21, 22}
+var c14Reduced = []int{0, 2, 4, 10, 11, 13, 16, 18, 21, 22, 24}
 
 func c14Enumerate(tier string, seed int64, emit func(string, any)) {
 	thorough := tier == "thorough"
@@ -308,6 +312,7 @@ func c14Run(raw json.RawMessage) harn.Result {
 	}
 	cfg := drv.AllOn()
 	cfg.Seed = 5
+	cfg.DefExpr = "3"
 	vm := drv.NewVM(cfg)
 	if err := vm.Run(c14Prelude); err != nil {
 		panic(err)
@@ -445,11 +450,15 @@ func c14Run(raw json.RawMessage) harn.Result {
 			}
 			a := anns[ai]
 			ai++
-			if !strings.HasPrefix(a, t.Src) {
-				viol("C14:annotation-source", fmt.Sprintf("annotation %q of term %q does not start with the term's source", a, t.Src))
+			label := t.Src
+			if t.Label != "" {
+				label = t.Label
+			}
+			if !strings.HasPrefix(a, label) {
+				viol("C14:annotation-source", fmt.Sprintf("annotation %q of term %q does not start with %q", a, t.Src, label))
 				return
 			}
-			rest := a[len(t.Src):]
+			rest := a[len(label):]
 			if msg := c14CheckAnnotation(t, rest, used[i], vals[i]); msg != "" {
 				viol("C14:annotation:"+t.Kind, fmt.Sprintf("faces %v term %q annotation %q: %s (full text %q)", faces, t.Src, a, msg, d1))
 				return
